@@ -146,7 +146,8 @@ var fwSecretLists = [][]string{nil, {}, {fwSecA}, {fwSecA, fwSecB}}
 const EnsureSpace = 21 * 7 * 7 * 4 * 2 * 3
 
 // fwReadIPVariant builds the request util.RequestIP is run on: 0 = an address, 1 = nothing
-// determinable (""), 2 = X-Real-Ip "[bad" (DropPort panics).
+// determinable (""), 2 = X-Real-Ip "[bad" (an unclosed bracket: handed on unchanged; DropPort
+// panicked there before the fix for finding C05-b).
 func fwReadIPVariant(v int) *http.Request {
 	req, _ := http.NewRequest("GET", "http://h/", nil)
 	req.RemoteAddr = ""
